@@ -9,6 +9,8 @@
 use super::hands::AnyHand;
 use super::{confirm, sample_json, Ctx};
 use crate::engine::enumerate::{par_parts, tuple_decode};
+#[allow(unused_imports)]
+use crate::engine::monitor::beat;
 use crate::engine::evidence::{Acc, Case, Report, Verdict};
 use crate::engine::monitor::{self, guard};
 use crate::oracle::cards::{deck, show_words, sigma53, word_to_card};
@@ -111,7 +113,7 @@ fn check_sort(acc: &mut Acc, w: &[u32]) {
     if !ok {
         match confirm(judge, Case::w32(&format!("{}.sort", AnyHand::size_name(n)), w)) {
             Some(v) => acc.violate(v),
-            None => monitor::machinery_fail(&format!("C11 sort mismatch on {:?} not reproduced", w)),
+            None => super::unreproduced(&format!("C11 sort mismatch on {:?} not reproduced", w)),
         }
     }
 }
@@ -176,6 +178,54 @@ pub fn run(ctx: &Ctx, rep: &mut Report) {
         let cards: Vec<u32> = d.iter().map(|c| c.word()).collect();
         for n in 2..=(if ctx.tier.thorough() { 4 } else { 3 }) {
             tuples_space(rep, &cards, n, "the 52 cards");
+        }
+    }
+    // bit-neighbour family: two slots hold words that differ in exactly one bit (a comparator that ignores some bit
+    // field is a total preorder on most alphabets and wrong only for such pairs)
+    {
+        let t0 = Instant::now();
+        let mut acc = Acc::new(1);
+        let bases = [0u32, 23, d[51].word(), mid, d[0].word(), d[13].word(), mid2 | (1 << 29), d[7].word() | (3 << 30), 0x8000_0000, 0x5555_5555, 0x0F0F_F0F0, u32::MAX];
+        for n in 2..=7usize {
+            for i in 0..n {
+                for j in 0..n {
+                    if i == j {
+                        continue;
+                    }
+                    for b in bases {
+                        for k in 0..32 {
+                            let mut w: Vec<u32> = (0..n).map(|s| d[(s * 5 + 9) % 52].word() ^ (s as u32 * 0x0100_0000)).collect();
+                            w[i] = b;
+                            w[j] = b ^ (1 << k);
+                            check_sort(&mut acc, &w);
+                        }
+                    }
+                }
+            }
+        }
+        rep.add_space("sort: every size, every ordered slot pair, 12 base words x every single-bit neighbour", &acc, t0, "pairs of words differing in exactly one of the 32 bits, in every pair of slots");
+    }
+    if ctx.tier.thorough() {
+        // one free slot x all 2^32 words, every size and slot
+        let kind = monitor::kind_id("sort-free-slot");
+        for n in 2..=7usize {
+            for slot in 0..n {
+                let t0 = Instant::now();
+                let base: Vec<u32> = (0..n).map(|s| d[(s * 9 + 3) % 52].word()).collect();
+                let accs = par_parts(1024, |p| {
+                    let mut acc = Acc::new(1);
+                    let lo = (p as u64) << 22;
+                    let mut w = base.clone();
+                    monitor::beat(kind, &[n as u64, slot as u64, lo]);
+                    for x in lo..lo + (1 << 22) {
+                        w[slot] = x as u32;
+                        check_sort(&mut acc, &w);
+                    }
+                    acc
+                });
+                let acc = Acc::merged(accs);
+                rep.add_space(&format!("sort: size {} slot {} x all 2^32 words", n, slot), &acc, t0, "one slot takes every 32-bit value, the others hold distinct cards");
+            }
         }
     }
     rep.rule = "distinct ordered word arrays; non-trivial = arrays that are not already non-increasing (the sort has to move something)".into();
